@@ -575,6 +575,64 @@ static void he_case(uint64_t idx, void *ctx)
     mc_outcome(idx);
 }
 
+/* ------------------------------------------------------------------ long buffers: every operation once on a buffer of n bytes, n around 127/255/256/4096/65536 */
+static const int LT[] = { 126, 127, 128, 254, 255, 256, 257, 4094, 4095, 4096, 4097, 32767, 32768, 65534, 65535, 65536, 65537 };
+#define NLT ((int) (sizeof LT / sizeof LT[0]))
+enum { LO_APP_PTR, LO_PRE_PTR, LO_APP_OBJ, LO_SPLICE_MID, LO_SPLICE_PTR_END, LO_SPLICE_SHRINK, LO_REV, LO_TRIM, LO_SUBBUFF, LO_INDEX, LO_FIND, LO_DUP_CMP, LO_CLEAR, LO_APP_SELF, NLO };
+static const char *LON[NLO] = { "append_from_ptr(\"x\\0y\",3)", "prepend_from_ptr(\"x\\0y\",3)", "append(object \"xy\")", "splice(n/2,3,\"ZZZZ\")", "splice_from_ptr(n-2,2,\"wxyz\",4)", "splice(1,n-2,NULL)",
+                                "reverse", "trim (bytes wrapped in blanks)", "subbuff(n-3,3) and subbuff(-n,n)", "index/rindex of the last byte", "find of the 3-byte suffix", "dup + cmp", "clear(0xCC)", "append(self)" };
+static void lt_desc(uint64_t idx, void *ctx, char *b, size_t n) { (void) ctx; snprintf(b, n, CLS " of %d bytes: %s", LT[idx / NLO], LON[idx % NLO]); }
+static void lt_case(uint64_t idx, void *ctx)
+{
+    int n = LT[idx / NLO], op = (int) (idx % NLO); (void) ctx;
+    char shape[48]; snprintf(shape, sizeof shape, "buffer of %s bytes", n < 256 ? "fewer than 256" : (n < 4096 ? "256..4095" : (n < 65536 ? "4096..65535" : "65536 or more")));
+    mc_set_shape(shape);
+    char site[64]; snprintf(site, sizeof site, CLS "_%.*s", (int) strcspn(LON[op], "( "), LON[op]);
+    size_t cap = (size_t) 2 * (size_t) n + 64; unsigned char *m = malloc(cap), *e = malloc(cap);
+    for (int i = 0; i < n; i++) m[i] = (unsigned char) (1 + (i * 7 + i / 200) % 200);           /* 1..200: no 0xFE */
+    m[n - 1] = 0xFE; m[n / 3] = 0;                                                                   /* a last byte that occurs nowhere else; an embedded NUL */
+    if (op == LO_TRIM) { memmove(m + 2, m, (size_t) n - 4); m[0] = ' '; m[1] = '\t'; m[n - 2] = ' '; m[n - 1] = '\n'; if (isspace(m[2])) m[2] = 'x'; if (isspace(m[n - 3])) m[n - 3] = 'x'; }
+    unsigned char *h = mc_heapmem(m, (size_t) n);
+    T o = F(new_from_ptr)(h, (spif_memidx_t) n); free(h);
+    if (!o) { FAIL(site, "model:return", shape, "new_from_ptr returned NULL"); free(m); free(e); return; }
+    size_t el = (size_t) n; memcpy(e, m, (size_t) n);
+    switch (op) {
+    case LO_APP_PTR: F(append_from_ptr)(o, (spif_byteptr_t) "x\0y", 3); memcpy(e + el, "x\0y", 3); el += 3; break;
+    case LO_PRE_PTR: F(prepend_from_ptr)(o, (spif_byteptr_t) "x\0y", 3); memmove(e + 3, e, el); memcpy(e, "x\0y", 3); el += 3; break;
+    case LO_APP_OBJ: { T x = F(new_from_ptr)((spif_byteptr_t) "xy", 2); F(append)(o, x); F(del)(x); memcpy(e + el, "xy", 2); el += 2; break; }
+    case LO_SPLICE_MID: { T x = F(new_from_ptr)((spif_byteptr_t) "ZZZZ", 4); if (!F(splice)(o, (spif_memidx_t) (n / 2), 3, x)) FAIL(site, "model:return", shape, "splice in range refused"); F(del)(x);
+        memmove(e + n / 2 + 4, e + n / 2 + 3, el - (size_t) (n / 2 + 3)); memcpy(e + n / 2, "ZZZZ", 4); el += 1; break; }
+    case LO_SPLICE_PTR_END: if (!F(splice_from_ptr)(o, (spif_memidx_t) (n - 2), 2, (spif_byteptr_t) "wxyz", 4)) FAIL(site, "model:return", shape, "splice in range refused"); memcpy(e + n - 2, "wxyz", 4); el += 2; break;
+    case LO_SPLICE_SHRINK: if (!F(splice)(o, 1, (spif_memidx_t) (n - 2), (T) NULL)) FAIL(site, "model:return", shape, "splice in range refused"); e[1] = e[n - 1]; el = 2; break;
+    case LO_REV: F(reverse)(o); for (size_t i = 0, j = el - 1; i < j; i++, j--) { unsigned char t = e[i]; e[i] = e[j]; e[j] = t; } break;
+    case LO_TRIM: F(trim)(o); memmove(e, e + 2, el - 4); el -= 4; break;
+    case LO_SUBBUFF: { T a = F(subbuff)(o, (spif_memidx_t) (n - 3), 3), b = F(subbuff)(o, (spif_memidx_t) -n, (spif_memidx_t) n);
+        if (!a || !a->buff || a->len != 3 || memcmp(a->buff, m + n - 3, 3)) FAIL(site, "model:return", shape, "subbuff(n-3,3) is not the last three bytes");
+        if (!b || !b->buff || (int) b->len != n || memcmp(b->buff, m, (size_t) n)) FAIL(site, "model:return", shape, "subbuff(-n,n) is not the whole buffer");
+        if (a) F(del)(a); if (b) F(del)(b); break; }
+    case LO_INDEX: if ((long) F(index)(o, 0xFE) != n - 1 || (long) F(rindex)(o, 0xFE) != n - 1) FAIL(site, "model:return", shape, "index/rindex of the last byte: %ld / %ld, expected %d", (long) F(index)(o, 0xFE), (long) F(rindex)(o, 0xFE), n - 1);
+        if ((long) F(index)(o, 0xFD) != n) FAIL(site, "model:return", shape, "index of an absent byte is %ld, expected the length %d", (long) F(index)(o, 0xFD), n); break;
+    case LO_FIND: { long g = (long) F(find_from_ptr)(o, m + n - 3, 3); if (g != n - 3) FAIL(site, "model:return", shape, "find of the suffix is %ld, expected %d", g, n - 3);
+        g = (long) F(find_from_ptr)(o, (spif_byteptr_t) "\xfe\xfd", 2); if (g != n) FAIL(site, "model:return", shape, "find of an absent sequence is %ld, expected the length %d", g, n); break; }
+    case LO_DUP_CMP: { T d = F(dup)(o); if (!d || d == o) FAIL(site, "model:return", shape, "dup failed"); else { if ((size_t) d->len != el || memcmp(d->buff, e, el)) FAIL(site, "model:bytes", shape, "the copy differs"); if (!SPIF_CMP_IS_EQUAL(F(cmp)(o, d))) FAIL(site, "model:return", shape, "cmp(original, copy) is not EQUAL");
+        F(append_from_ptr)(d, (spif_byteptr_t) "z", 1); if (!SPIF_CMP_IS_LESS(F(cmp)(o, d))) FAIL(site, "model:return", shape, "the buffer does not sort before itself + 'z'"); F(del)(d); } break; }
+    case LO_CLEAR: F(clear)(o, 0xCC); memset(e, 0xCC, el); break;
+    case LO_APP_SELF: F(append)(o, o); memcpy(e + el, e, el); el *= 2; break;
+    }
+    for (int step = 0; step < 2; step++) {
+        const char *what = step ? "after a following append" : "after the operation";
+        if (!o->buff) FAIL(site, "model:bytes", shape, "%s: buffer pointer NULL for %zu expected bytes", what, el);
+        else if ((size_t) o->len != el) FAIL(site, "model:len", shape, "%s: len=%ld expected %zu", what, (long) o->len, el);
+        else if (o->size < o->len || (mc_block_size(o->buff) && (spif_memidx_t) mc_block_size(o->buff) < o->size)) FAIL(site, "invariant:size", shape, "%s: len=%ld size=%ld block=%zu", what, (long) o->len, (long) o->size, mc_block_size(o->buff));
+        else if (memcmp(o->buff, e, el)) { size_t d = 0; while (d < el && o->buff[d] == e[d]) d++; FAIL(site, "model:bytes", shape, "%s: bytes differ from the ideal sequence at offset %zu of %zu", what, d, el); }
+        if (!step) { F(append_from_ptr)(o, (spif_byteptr_t) "!", 1); e[el++] = '!'; }
+    }
+    F(del)(o);
+    free(m); free(e);
+    mc_nontrivial();
+    mc_outcome(idx);
+}
+
 /* ------------------------------------------------------------------ sprintf: every formatted length up to a bound (internal probe/retry buffers have sizes of their own) */
 static void sp_desc(uint64_t idx, void *ctx, char *b, size_t n) { (void) ctx; static const char *f[3] = { "\"%s\" with a string of n characters", "\"%*d\" with width n", "\"<%s>\" with a string of n characters" }; snprintf(b, n, CLS " sprintf(%s), n=%d, then the same on an object that already holds text", f[idx % 3], (int) (idx / 3)); }
 static void sp_case(uint64_t idx, void *ctx)
@@ -626,6 +684,7 @@ int main(int argc, char **argv)
     g_dev = (int) mc_arg_int("dev", 2);
     if (!mc_arg("only", NULL) || !strcmp(mc_arg("only", ""), "ctor"))
         mc_e2_level(CLS "_stream_ctor", g_k * 10 + g_dev, (uint64_t) NSRC * NLENS, sc_case, sc_desc, NULL);
+    if (!mc_arg("only", NULL)) mc_e2_level(CLS "_long_buffer", 65537, (uint64_t) NLT * NLO, lt_case, lt_desc, NULL);
     if (!mc_arg("only", NULL)) { mc_e2_level(CLS "_stream_history", 1, 30, sh_case, sh_desc, NULL); mc_e2_level(CLS "_fd_hard_error", 1, NHE, he_case, he_desc, NULL); }
     if (!mc_arg("only", NULL)) { int maxn = (int) mc_arg_int("spmax", mc_thorough() ? 9000 : 700); mc_e2_level(CLS "_sprintf_len", maxn, (uint64_t) (maxn + 1) * 3, sp_case, sp_desc, NULL); }
     return mc_finish();
